@@ -25,7 +25,7 @@ def run_restartable(ctx, binary, mode, cases, trace, extra, timeout=900):
     """Drivers exit with 7 after a decoder call that never returned (it cannot be stopped); re-run behind that case."""
     parts = []
     start = 0
-    for attempt in range(12):
+    for attempt in range(40):
         part = "%s.part%d" % (trace, attempt)
         logp = vlib.run_driver(ctx, binary, ["-mode", mode, "-cases", cases, "-trace", part, "-from", str(start)] + extra,
                                timeout=timeout, ok_codes=(0, 7))
@@ -73,6 +73,19 @@ def xdec_sig(e, kind):
     return "C08:xdec:%s:%s:%s" % (e.get("codec"), fld, kind)
 
 
+H2T = {0: "DATA", 1: "HEADERS", 2: "PRIORITY", 3: "RST_STREAM", 4: "SETTINGS", 6: "PING", 7: "GOAWAY", 8: "WINDOW_UPDATE",
+       9: "CONTINUATION", 42: "UNKNOWN"}
+
+
+def h2_sig(e, kind):
+    if e["ev"] == "randh2":
+        return "C08:randh2:%s:%s" % (e.get("target"), kind)
+    if e["ev"] == "hpack":
+        return "C08:hpack:%s:%s" % ("+".join(e.get("reps", [])), kind)
+    shape = "+".join(H2T.get(f["t"], str(f["t"])) for f in e.get("frames", []))
+    return "C08:h2:%s:%s" % (shape, kind)
+
+
 def run(ctx):
     q = ctx.quick()
     only = os.environ.get("C08_PARTS", "xdec,h2,e2e").split(",")
@@ -97,12 +110,80 @@ def run(ctx):
         ctx.sample({"part": "xdec", "event": next((e for e in evs if e["ev"] == "xdec" and e["mut"] != "none" and e["n"] > 30), evs[0])})
         ctx.sample({"part": "rand", "event": next((e for e in evs if e["ev"] == "rand"), None)})
 
+    # ------------------------------------------------------------------ part 2: HTTP/2 framer and HPACK decoder
+    if "h2" in only:
+        cases = os.path.join(ctx.tmp, "h2cases.jsonl")
+        r = vlib.run_tlc(ctx, "wire", "MalformedH2", "MalformedH2.cfg", workers=1, cases_to=cases, timeout=900)
+        ctx.add_tlc(r)
+        if vlib.run_tlc(ctx, "wire", "MalformedH2", "MalformedH2_defect_ContOffsetStuck.cfg", expect_ok=False)["ok"]:
+            raise vlib.Inconclusive("MalformedH2 model does not reject defect ContOffsetStuck")
+        binary = binary or vlib.go_build("c08")
+        trace = os.path.join(ctx.tmp, "h2.ndjson")
+        run_restartable(ctx, binary, "h2", cases, trace, ["-rand", "3000" if q else "100000"], timeout=1500)
+        evs = validate(ctx, "wire", "MalformedH2Trace", trace, "h2", h2_sig, ("h2", "hpack"))
+        ctx.cov["evaluations"] += sum(len(e["runs"]) for e in evs if e["ev"] in ("h2", "hpack"))
+        ctx.cov["evaluations"] += sum(3 * e["count"] for e in evs if e["ev"] == "randh2")
+        ctx.cov["distinct_nontrivial"] += sum(1 for e in evs if e["ev"] in ("h2", "hpack"))
+        ctx.sample({"part": "h2", "event": next((e for e in evs if e["ev"] == "h2" and len(e["frames"]) > 2), evs[0])})
+        ctx.sample({"part": "hpack", "event": next((e for e in evs if e["ev"] == "hpack" and e["n"] > 3), None)})
+
+    # ------------------------------------------------------------------ part 3: containment on a running MOSN
+    if "e2e" in only:
+        menu = os.path.join(ctx.tmp, "menu.jsonl")
+        r = vlib.run_tlc(ctx, "server", "Containment", "Containment.cfg", cases_to=menu, workers=1, timeout=600)
+        ctx.add_tlc(r)
+        for d in ("NoRecover", "SilentDecodeError", "SharedPoison", "LeakOnClose"):
+            if vlib.run_tlc(ctx, "server", "Containment", "Containment_defect_%s.cfg" % d, expect_ok=False)["ok"]:
+                raise vlib.Inconclusive("Containment model does not reject defect " + d)
+        binary = binary or vlib.go_build("c08")
+        trace = os.path.join(ctx.tmp, "e2e.ndjson")
+        # exit codes: 0 done, 7 bailed out because the proxy wedged (event in the trace), 2 = Go runtime died (panic in the proxy)
+        logp = vlib.run_driver(ctx, binary, ["-mode", "e2e", "-cases", menu, "-trace", trace], timeout=600, ok_codes=(0, 2, 7))
+        logtxt = open(logp, errors="replace").read()
+        evs = vlib.read_jsonl(trace) if os.path.exists(trace) else []
+        if not any(e["ev"] in ("alive", "wedged") for e in evs):
+            m = re.search(r"^(panic: .*|fatal error: .*)$", logtxt, re.M)
+            if not m:
+                raise vlib.Inconclusive("e2e driver ended without verdict events:\n" + logtxt[-2000:])
+            where = re.search(r"^(mosn\.io/mosn/pkg/[^\s(]+)", logtxt[m.start():], re.M)
+            sent = [e for e in evs if e["ev"] == "poison"]
+            seen = set(e["c"] for e in evs if e["ev"] == "seen")
+            vlib.report_failure(ctx, "C08:e2e:process-crashed:%s" % (where.group(1) if where else "unknown"),
+                                dict(panic=m.group(1)[:300], stack=logtxt[m.start():m.start() + 1500],
+                                     poisons_in_flight=[e for e in sent if e["c"] not in seen][:30]))
+        if evs:
+            by_c = {}
+            for e in evs:
+                if e["ev"] == "poison":
+                    by_c[e["c"]] = e
+
+            def e2e_sig(e, kind):
+                if e["ev"] == "seen":
+                    return "C08:e2e:%s:%s:%s" % (e.get("proto"), e.get("name"), kind)
+                if e["ev"] == "gauge":
+                    return "C08:e2e:%s:%s" % (e.get("listener"), kind)
+                if e["ev"] == "serve":
+                    return "C08:e2e:%s:%s:%s" % (e.get("c", "").split("-")[0], e.get("what"), kind)
+                return "C08:e2e:%s" % kind
+            validate(ctx, "server", "ContainmentTrace", trace, "e2e", e2e_sig, ("poison",))
+            ctx.cov["evaluations"] += sum(1 for e in evs if e["ev"] in ("seen", "serve", "gauge"))
+            ctx.cov["distinct_nontrivial"] += sum(1 for e in evs if e["ev"] == "poison")
+            ctx.sample({"part": "e2e", "events": [e for e in evs if e["ev"] in ("poison", "seen")][:4]})
+            for e in evs:
+                if e["ev"] == "note":
+                    ctx.notes.append(e["what"])
+
     ctx.cov["rule"] = ("xdec: every <layout (10: bolt/boltv2/dubbo/dubbo-thrift/tars x request/response), length field, mutation "
                        "(0,1,2,3,true-1,true+1,16 MiB,max), number of bytes supplied (every boundary of the layout, of the true and of "
                        "the announced frame, +-1)> enumerated by TLC = one case; each case = 4 real Decode calls (memory behind the "
                        "supplied bytes: none/zeros/ones/continuation) + 15 matcher calls; rand: seeded random strings and random "
-                       "corruptions of valid frames, 3 Decode calls each")
+                       "corruptions of valid frames, 3 Decode calls each; h2: every <frame type, flags, stream 0/1, length field "
+                       "(true, +-1, 0..8, max read size, +1, 2^24-1), pad length, cut> and every HEADERS/CONTINUATION sequence of the "
+                       "menu x cut = one case = 4 real ReadFrame calls; hpack: every sequence of <= 2 of 10 representations x every "
+                       "prefix = one case = 4 real Write+Close; e2e: every poison of the menu of Containment.tla (26: bolt, dubbo-thrift, "
+                       "HTTP/1, HTTP/2; downstream and upstream side) on its own connection of a real MOSN next to probe connections")
     ctx.cov["exhaustive"] = True
     ctx.assumptions += ["decoders are called as the stream layer calls them (fresh buffer-pool context, IoBuffer over the received bytes)",
                         "allocation is measured with runtime/metrics around the call; bound 1 MiB + 16 bytes per supplied byte",
-                        "a decoder call that has not returned after 40 s or grew the heap by 400 MB is a loop"]
+                        "a decoder call that has not returned after 40 s or grew the heap by 400 MB is a loop",
+                        "e2e: a peer that saw neither bytes nor a close for 8 s calls its connection silent; gauges get 10 s to settle"]
